@@ -34,10 +34,6 @@ impl Error {
     pub fn invalid_params(msg: String) -> (r: Error) { unimplemented!() }
 }
 pub type Result<T> = core::result::Result<T, Error>;
-// assumed std semantics of Option::map_or_else
-pub assume_specification<T, U, D: FnOnce() -> U, F: FnOnce(T) -> U>[ Option::<T>::map_or_else ](o: Option<T>, default: D, f: F) -> (r: U)
-    requires o.is_none() ==> default.requires(()), o.is_some() ==> f.requires((o.unwrap(),)),
-    ensures o.is_none() ==> default.ensures((), r), o.is_some() ==> f.ensures((o.unwrap(),), r);
 // `[a, vec![byte; n]].concat()`: a followed by n copies of byte (assumed)
 #[verifier::external_body]
 pub fn vf_pad(a: Vec<u8>, byte: u8, n: usize) -> (r: Vec<u8>)
